@@ -8,7 +8,7 @@ F(p, b, dv) == [par |-> p, kind |-> "file", big |-> b, tgt |-> 0, dev |-> dv]
 L(p, g, dv) == [par |-> p, kind |-> "link", big |-> FALSE, tgt |-> g, dev |-> dv]
 E(k, p, e) == [r |-> k, p |-> p, e |-> e]
 O(md, fs, fl, sfs, filt, ignd, ignt) ==
-  [md |-> md, fs |-> fs, fl |-> fl, sfs |-> sfs, filt |-> filt, ignd |-> ignd, ignt |-> ignt]
+  [md |-> md, fs |-> fs, fl |-> fl, sfs |-> sfs, filt |-> filt, ignd |-> ignd, ignt |-> ignt, igndir |-> FALSE]
 
 \* n1/ { n2/ { n4 -> n1 } }, n3 -> n2 ; roots n2 and n3
 TreeA == <<D(0, 1), D(1, 1), L(0, 2, 1), L(2, 1, 1)>>
@@ -32,4 +32,15 @@ ASSUME Must(TreeC, <<1>>, O(99, TRUE, FALSE, FALSE, 2, 0, 0)) = {E(1, <<1>>, 0)}
 ASSUME Strip(Walk("serialkf", TreeC, <<1>>, O(99, TRUE, FALSE, FALSE, 2, 0, 0))) = {E(1, <<1>>, 0), E(1, <<1, 2>>, 0)}
 ASSUME Strip(Walk("parallel", TreeC, <<1>>, O(99, TRUE, FALSE, FALSE, 2, 0, 0))) = {E(1, <<1>>, 0)}
 ASSUME Must(TreeC, <<1>>, O(99, FALSE, FALSE, FALSE, 0, 1, 2)) = {E(1, <<1>>, 0)}
+\* a directory-only rule does not remove a file, and removes a link to a directory only when links are followed
+ASSUME Must(TreeC, <<1>>, [O(99, FALSE, FALSE, FALSE, 0, 1, 2) EXCEPT !.igndir = TRUE]) = {E(1, <<1>>, 0), E(1, <<1, 2>>, 0)}
+ASSUME Must(TreeB, <<1>>, [O(99, FALSE, FALSE, FALSE, 0, 1, 2) EXCEPT !.igndir = TRUE]) = {E(1, <<1>>, 0), E(1, <<1, 2>>, 0)}
+ASSUME Must(TreeB, <<1>>, [O(99, FALSE, TRUE, FALSE, 0, 1, 2) EXCEPT !.igndir = TRUE]) = {E(1, <<1>>, 0)}
+\* n1/ { n2 -> n3, n4 }, n3/ (device 2): with same_file_system, links followed and n2 ignored, the pinned
+\* serial walker may lose n4 (if readdir yields n2 first); nothing can be lost without the ignore rule
+TreeD == <<D(0, 1), L(1, 3, 1), D(0, 2), F(1, FALSE, 1)>>
+ASSUME Strip(Lose(TreeD, <<1>>, O(99, FALSE, TRUE, TRUE, 0, 1, 2))) = {E(1, <<1, 4>>, 0)}
+ASSUME Lose(TreeD, <<1>>, O(99, FALSE, TRUE, TRUE, 0, 0, 0)) = {}
+ASSUME Lose(TreeD, <<1>>, O(99, FALSE, TRUE, FALSE, 0, 1, 2)) = {}
+ASSUME Must(TreeD, <<1>>, O(99, FALSE, TRUE, TRUE, 0, 1, 2)) = {E(1, <<1>>, 0), E(1, <<1, 4>>, 0)}
 =============================================================================
